@@ -397,6 +397,19 @@ void ExecImpl::op_unwind(const Op&) {
 void ExecImpl::op_assign_seq(const Op& op) {
   int id = pick(M.live_seqs(), op.a[0]);
   if (id < 0) return;
+  if (op.a[3] & 2) {
+    // s = std::move(s): nothing may happen (no report, no entry lost); the model does not change
+    ++st.f_relocate; ++st.p_seq_self_assigned;
+    nontriv("C06"); nontriv("C14");
+    if (shadow) return;
+    Obs o; obs_stack.push_back(&o);
+    trompeloeil::sequence& self = *rseqs[static_cast<size_t>(id)];
+    self = std::move(self);
+    obs_stack.pop_back();
+    std::vector<XRep> none;
+    check_reports(o, none, false, "self move-assignment of a sequence", "C06,C14");
+    return;
+  }
   if (!shadow && (op.a[3] & 1) && !moved_from_seqs.empty()) {
     // a moved-from sequence object is assigned to again (std::swap, or a sequence handed back to where it came from):
     // the live sequence moves house, nothing is reported, the model does not change
